@@ -39,7 +39,7 @@ REQUIRED = ['cmp_total', 'cmp_raw_pub', 'cmp_raw_priv', 'cmp_raw_inverse', 'cmp_
             'cmp_compute_privexp', 'cmp_raw_priv_even', 'cmp_raw_pub_range']
 
 NWORKERS = 16
-CASES = {'quick': 40, 'thorough': 300}
+CASES = {'quick': 40, 'thorough': 200}
 
 
 def jobs(tier, seed):
